@@ -729,7 +729,7 @@ impl Check for C20 {
         ]
     }
     fn cases(tier: Tier) -> u32 {
-        tier.pick(640, 8000)
+        tier.pick(1920, 16000)
     }
     fn strategy(_tier: Tier) -> BoxedStrategy<C20Case> {
         let end = prop_oneof![
